@@ -83,13 +83,27 @@ func findPacker(p *Program) (fn *ssa.Function, typeIdx, hashIdx int) {
 		for _, b := range f.Blocks {
 			for _, in := range b.Instrs {
 				bo, ok := in.(*ssa.BinOp)
-				if !ok || bo.Op != token.SHL {
+				if !ok {
 					continue
 				}
-				if k, ok := constInt(bo.Y); !ok || k != 3 {
+				// type << 3, or the same thing spelled type * 8 (either operand order)
+				var tv ssa.Value
+				switch bo.Op {
+				case token.SHL:
+					if k, ok := constInt(bo.Y); ok && k == 3 {
+						tv = bo.X
+					}
+				case token.MUL:
+					if k, ok := constInt(bo.Y); ok && k == 8 {
+						tv = bo.X
+					} else if k, ok := constInt(bo.X); ok && k == 8 {
+						tv = bo.Y
+					}
+				}
+				if tv == nil {
 					continue
 				}
-				pa, ok := stripIntConv(bo.X).(*ssa.Parameter)
+				pa, ok := stripIntConv(tv).(*ssa.Parameter)
 				if !ok {
 					continue
 				}
@@ -322,6 +336,20 @@ func checkC01(p *Program, r *Report) {
 		for _, ap := range acceptPoints(classifier) {
 			if n := bseqLen(ev.Eval(ap.Ret.Results[0])); n >= 0 {
 				classLens[n] = true
+			} else {
+				// an open-ended window (data[1:]): its length follows from the conditions on the way to this return
+				ll := lc.LenLin(ap.Ret.Results[0])
+				blk := ap.Block
+				if ap.Pred != nil {
+					blk = ap.Pred
+				}
+				facts := lc.FactsOf(MustCondsAtBlock(classifier, blk))
+				for n := int64(0); n <= 64; n++ {
+					if lc.EntailsEq(facts, ll.addConst(-n)) {
+						classLens[n] = true
+						break
+					}
+				}
 			}
 			var collect func(v ssa.Value, d int)
 			collect = func(v ssa.Value, d int) {
